@@ -3,14 +3,15 @@
 import json, sys
 props = {json.loads(l)["id"]: json.loads(l) for l in open("/verif/properties.jsonl")}
 ids = [a for a in sys.argv[1:] if not a.startswith("--")]
-ROUND2 = "--round2" in sys.argv
-K1, K2 = (3, 4) if ROUND2 else (1, 2)
+ROUND3 = "--round3" in sys.argv
+ROUND2 = "--round2" in sys.argv or ROUND3
+K1, K2 = (5, 6) if ROUND3 else ((3, 4) if ROUND2 else (1, 2))
 def earlier(i):
     out = []
-    for k in (1, 2):
+    for k in ((1, 2, 3, 4) if ROUND3 else (1, 2)):
         try:
             m = json.load(open("/verif/seeded/%s-%d/meta.json" % (i, k)))
-            out.append("  - already tried (do something DIFFERENT, other code site and other mechanism): " + (m.get("breaks") or "")[:400])
+            out.append("  - already tried (do something DIFFERENT, other code site and other mechanism): " + (m.get("breaks") or "")[:300])
         except Exception:
             pass
     return "\n".join(out)
